@@ -86,6 +86,14 @@ Definition consume_output (p : sp) (amt : N) : sp :=
   else mkSp (buffer p) (parsed_start p) (gap_start p) (raw_start p) (free_start p) (output p)
             (output_start p + amt) (sreq p) (stream p) (payload_rem p) (padding_rem p) (sst p).
 
+(* whether a selection is acceptable: Some true / Some false (SequenceError) / None (debug_assert) *)
+Definition accepts (role : N) (cur req : option N) : option bool :=
+  match req with
+  | None => Some true
+  | Some x => match cmp_input_streams role x cur with
+              | None => None | Some Lt => Some false | Some _ => Some true end
+  end.
+
 Inductive set_res := SetOk (p : sp) | SetErr | SetPanic.
 
 (* Parser::set_stream, stream.rs:201-216 *)
